@@ -10,7 +10,8 @@ package main
 //	v := e   /   v, ok := m[k]   /  var v = e   ⇒ substitution of v (expressions are pure)
 //	m[k], _, ok := m[k]                    ⇒ disjunction of k == key over the constant keys of a package-level
 //	                                         map[string]bool / map[string]struct{} literal that is written nowhere else
-//	f(parent|child|terms…)                 ⇒ the body of the package function f, inlined (depth ≤ 4)
+//	f(parent|child|terms…)                 ⇒ the body of the package function f, inlined (depth ≤ 4); if that is not
+//	                                         possible (recursion into the sub-tree): an opaque predicate of that node
 //
 // Anything else (loops, method values, mutation, …) aborts the translation: the rule is then "not
 // established" and the check falls back to an amplified differential search (see props/C08.py).
@@ -25,6 +26,7 @@ import (
 type c08abort struct{ why string }
 
 type c08tr struct {
+	opaque    []string
 	files     []*ast.File
 	strConsts map[string]string
 	intConsts map[string]string
@@ -158,7 +160,21 @@ func (t *c08tr) cond(e ast.Expr, env *c08env) string {
 		}
 	case *ast.CallExpr:
 		if fn, ok := v.Fun.(*ast.Ident); ok {
-			return t.inline(fn.Name, v.Args, env)
+			if s, ok := t.try(func() string { return t.inline(fn.Name, v.Args, env) }); ok {
+				return s
+			}
+			// a helper that cannot be inlined (e.g. it recurses into the sub-tree) is kept as an OPAQUE
+			// predicate of the node it is called on: the rule is translated relative to it, the facts range
+			// over both of its values, its meaning is modelled by hand and tied by the correspondence run
+			if t.findFunc(fn.Name) != nil {
+				for _, a := range v.Args {
+					if who, ok := t.node(a, env); ok {
+						t.opaque = append(t.opaque, fn.Name)
+						return "(" + who + ".sub " + leanStr(fn.Name) + ")"
+					}
+				}
+			}
+			t.abort("call of %s cannot be inlined and has no node argument", fn.Name)
 		}
 	case *ast.BinaryExpr:
 		switch v.Op {
@@ -488,8 +504,11 @@ func (t *c08tr) exec(stmts []ast.Stmt, env *c08env) string {
 }
 
 // c08TranslateRule translates ppNeedsBrackets; ok=false with a reason when a construct is not understood.
+var c08Opaque []string
+
 func c08TranslateRule(files []*ast.File, strConsts, intConsts map[string]string) (lean string, ok bool, why string) {
 	t := &c08tr{files: files, strConsts: strConsts, intConsts: intConsts}
+	defer func() { c08Opaque = t.opaque }()
 	defer func() {
 		if r := recover(); r != nil {
 			if a, is := r.(c08abort); is {
